@@ -8,17 +8,21 @@ def run(ctx):
         ctx.run_shards(b, "TestVerifC05", 1, 600, "c05")
     else:
         ctx.run_shards(b, "TestVerifC05", 16, 900 if ctx.tier == "quick" else 3400, "c05")
+        if ctx.tier == "thorough":
+            # the quick case list once more under the race detector (its reports are diagnostics, DESIGN.md §3)
+            br = ctx.build("internal/zzverif/c05", race=True)
+            ctx.run_shards(br, "TestVerifC05", 16, 3400, "c05race", extra_env={"VERIF_TIER": "quick"}, race=True)
     return driver.finish(
         ctx, "exploration",
         "for every case of the matrix server certificate {Good, GoodDNS (name-only SAN), IPOnly (address-only SAN), WrongHost, Untrusted (foreign CA), Expired} x "
-        "client insecure flag x client certificate {none, own CA, foreign CA} x server require-client-cert x carrier {tcp+tls, wss, StartTLS over tcp/ws/udp/dns} x "
+        "client insecure flag x client certificate {none, own CA, foreign CA, foreign CA presented regardless of the server's CA list} x server require-client-cert x carrier {tcp+tls, wss, StartTLS over tcp/ws/udp/dns} x "
         "upstream host written as localhost / 127.0.0.1 (dns: the tunnel domain), plus UDP shared secret {equal, different, only server, only client} x {plain, StartTLS}: "
         "a fresh real server command + client command is started, a logical connection is opened through the client's listener and one probe byte written; "
         "observed = admitted (the channel's recording target accepted a connection; probe byte read there) / refused (application saw end-of-stream or reset and a barrier "
         "connection through the target's accept queue shows the server never dialled it) / pending (neither within the stall window). Oracle: reference model "
         "admit = (insecure or (chains to client's CA and within validity and matches host as written)) and (not require or client cert signed by server's CA); "
         "secrets: admit = equal. Both directions of disagreement are violations; pending satisfies an expected refusal. Quick = per-carrier single-deviation core + seeded "
-        "greedy pairwise cover + seeded extras (~110 cases), thorough = all 792 + 8. Distinct = the configuration tuple; non-trivial = the probe reached one of the three observations.",
+        "greedy pairwise cover + seeded extras (~190 cases), thorough = all 1056 + 8. Distinct = the configuration tuple; non-trivial = the probe reached one of the three observations.",
         ["loopback sockets stand for the network; host names are localhost / 127.0.0.1 / t.example.org",
          "certificates are ECDSA P-256 issued by two run-time CAs; Go's crypto/tls of the local toolchain does the verifying",
          "stdin+tls (documented exception: certificate not verified) and unix carriers (no host name) are excluded"],
